@@ -162,17 +162,28 @@ def deliverAll (cfg : Cfg) (c : Nat) : Nat → Server → List Out → Server ×
 
 def startOf (stock : Bool) : DS := { stock := stock, s := (run (cfgOf stock) init victimLogin).1 }
 
-/-- op lines: `reset` / `reset stock`, otherwise `<connection> <element…>` with connection 1 or 2 -/
+/-- split a word list at the "+" tokens -/
+def splitPlus (ws : List String) : List (List String) :=
+  let r := ws.foldl (fun (acc : List (List String) × List String) w =>
+    if w = "+" then (acc.1 ++ [acc.2], []) else (acc.1, acc.2 ++ [w])) ([], [])
+  r.1 ++ [r.2]
+
+def runEvs (cfg : Cfg) (c : Nat) : List Ev → Server → List Out → Server × List Out
+  | [], s, acc => (s, acc)
+  | ev :: evs, s, acc => let r := step cfg s (c, ev); runEvs cfg c evs r.1 (acc ++ r.2)
+
+/-- op lines: `reset` / `reset stock`, otherwise `<connection> <element…>` with connection 1 or 2;
+`<connection> e1 + e2 + …` = several elements in one TCP write (one read on the server side) -/
 def stepLine (d : DS) (line : String) : DS × String :=
   match words line with
   | ["reset"] => (startOf false, "ok")
   | ["reset", "stock"] => (startOf true, "ok")
   | cw :: ws =>
-    match cw.toNat?, parseEv ws with
-    | some c, some ev =>
+    match cw.toNat?, (splitPlus ws).mapM parseEv with
+    | some c, some (ev :: more) =>
       if c = 1 ∨ c = 2 then
         let cfg := cfgOf d.stock
-        let r := step cfg d.s (c, ev)
+        let r := runEvs cfg c (ev :: more.map .sameRead) d.s []
         let r2 := if d.stock then deliverAll cfg c 8 r.1 r.2 else r
         ({ d with s := r2.1 }, obs r2.1 c r2.2)
       else (d, "bad-op")
